@@ -16,6 +16,7 @@ with another block; every series (and every model's final equation text) must be
 of the same object built and solved alone in a fresh interpreter.
 """
 import json
+import os
 from concurrent.futures import ThreadPoolExecutor
 
 import common
@@ -26,6 +27,9 @@ FAMILY = 'Hist'
 PROPFILE = 'PropC17.v'
 LEVEL = 'proof'
 REQUIRES = ['From SFC.Base Require Import Res.', 'From SFC.Hist Require Import Reuse CaseDefs.']
+
+# development switch: compare with the model of the code BEFORE fix D17 (to validate step_orig on a pre-fix tree)
+CASEFN = 'c17_case_orig' if os.environ.get('VERIF_ORIG_MODEL') else 'c17_case'
 
 # block id 0 is reserved for "never parsed"
 BLOCKS = [
@@ -362,7 +366,7 @@ def emit_history(h, obs):
             else:
                 cr = 'Ran %s %s' % (fser(c['series']), coq_option(None if c['err'] is None else en(c['err'])))
             ct.append('(%s, %s, %s)' % (coq_nat(b), coq_nat(m), cr))
-        cases.append('c17_case %s %s %s %s' % (coq_list(pt), coq_list(ct), coq_list(ops), coq_list(exp)))
+        cases.append(CASEFN + ' %s %s %s %s' % (coq_list(pt), coq_list(ct), coq_list(ops), coq_list(exp)))
     return cases
 
 
